@@ -1574,6 +1574,15 @@ def inject_inconsistency(rng, prog, cls):
             pre = progs.run_program(prog[:j])
             env = pre["env"]
             names = [b for b in env.b if incomplete_hugr(env.b[b].hugr)]
+            # … or, judged from the program alone: a dataflow builder that was opened and has not been given its outputs
+            # yet — its Output node has no types, whatever the operation object says about itself (seeded change C13-16:
+            # `Output._types` defaulting to the empty row, so that a function with declared outputs and an open body
+            # serialises)
+            closing = ("set_outputs", "set_block_outputs", "set_single_succ_outputs", "set_loop_outputs",
+                       "set_indexed_outputs", "set_tracked_outputs")
+            closed = {c[1] for c in prog[:j] if c[0] in closing}
+            names += [b for b, i0 in pr.bdef.items()
+                      if i0 < j and b in env.b and b not in closed and b not in names and isinstance(env.b[b], C["DfBase"])]
             if names:
                 return result(insert_at(j, [["to_json", rng.choice(names)]]), j)
         return None
